@@ -253,19 +253,19 @@ func (vm *VM) run() (Addr, bool) {
 			fn := vm.fn.Functions[uint8(a)]
 			off := vm.fn.Body[vm.pc]
 			vm.fp[0] += Addr(off.Op)
-			if vm.fp[0]+Addr(fn.NumReg[0]) > vm.st[0] {
+			if vm.fp[0]+Addr(fn.NumReg[0]) >= vm.st[0] {
 				vm.moreIntStack()
 			}
 			vm.fp[1] += Addr(off.A)
-			if vm.fp[1]+Addr(fn.NumReg[1]) > vm.st[1] {
+			if vm.fp[1]+Addr(fn.NumReg[1]) >= vm.st[1] {
 				vm.moreFloatStack()
 			}
 			vm.fp[2] += Addr(off.B)
-			if vm.fp[2]+Addr(fn.NumReg[2]) > vm.st[2] {
+			if vm.fp[2]+Addr(fn.NumReg[2]) >= vm.st[2] {
 				vm.moreStringStack()
 			}
 			vm.fp[3] += Addr(off.C)
-			if vm.fp[3]+Addr(fn.NumReg[3]) > vm.st[3] {
+			if vm.fp[3]+Addr(fn.NumReg[3]) >= vm.st[3] {
 				vm.moreGeneralStack()
 			}
 			vm.fn = fn
@@ -287,19 +287,19 @@ func (vm *VM) run() (Addr, bool) {
 				fn := f.fn
 				off := vm.fn.Body[vm.pc]
 				vm.fp[0] += Addr(off.Op)
-				if vm.fp[0]+Addr(fn.NumReg[0]) > vm.st[0] {
+				if vm.fp[0]+Addr(fn.NumReg[0]) >= vm.st[0] {
 					vm.moreIntStack()
 				}
 				vm.fp[1] += Addr(off.A)
-				if vm.fp[1]+Addr(fn.NumReg[1]) > vm.st[1] {
+				if vm.fp[1]+Addr(fn.NumReg[1]) >= vm.st[1] {
 					vm.moreFloatStack()
 				}
 				vm.fp[2] += Addr(off.B)
-				if vm.fp[2]+Addr(fn.NumReg[2]) > vm.st[2] {
+				if vm.fp[2]+Addr(fn.NumReg[2]) >= vm.st[2] {
 					vm.moreStringStack()
 				}
 				vm.fp[3] += Addr(off.C)
-				if vm.fp[3]+Addr(fn.NumReg[3]) > vm.st[3] {
+				if vm.fp[3]+Addr(fn.NumReg[3]) >= vm.st[3] {
 					vm.moreGeneralStack()
 				}
 				if fn.Macro {
@@ -326,19 +326,19 @@ func (vm *VM) run() (Addr, bool) {
 			fn := vm.fn.Functions[uint8(a)]
 			off := vm.fn.Body[vm.pc]
 			vm.fp[0] += Addr(off.Op)
-			if vm.fp[0]+Addr(fn.NumReg[0]) > vm.st[0] {
+			if vm.fp[0]+Addr(fn.NumReg[0]) >= vm.st[0] {
 				vm.moreIntStack()
 			}
 			vm.fp[1] += Addr(off.A)
-			if vm.fp[1]+Addr(fn.NumReg[1]) > vm.st[1] {
+			if vm.fp[1]+Addr(fn.NumReg[1]) >= vm.st[1] {
 				vm.moreFloatStack()
 			}
 			vm.fp[2] += Addr(off.B)
-			if vm.fp[2]+Addr(fn.NumReg[2]) > vm.st[2] {
+			if vm.fp[2]+Addr(fn.NumReg[2]) >= vm.st[2] {
 				vm.moreStringStack()
 			}
 			vm.fp[3] += Addr(off.C)
-			if vm.fp[3]+Addr(fn.NumReg[3]) > vm.st[3] {
+			if vm.fp[3]+Addr(fn.NumReg[3]) >= vm.st[3] {
 				vm.moreGeneralStack()
 			}
 			if b == ReturnString {
@@ -1944,16 +1944,16 @@ func (vm *VM) run() (Addr, bool) {
 					fn = vm.fn.Functions[uint8(b)]
 					vm.vars = vm.env.globals
 				}
-				if vm.fp[0]+Addr(fn.NumReg[0]) > vm.st[0] {
+				if vm.fp[0]+Addr(fn.NumReg[0]) >= vm.st[0] {
 					vm.moreIntStack()
 				}
-				if vm.fp[1]+Addr(fn.NumReg[1]) > vm.st[1] {
+				if vm.fp[1]+Addr(fn.NumReg[1]) >= vm.st[1] {
 					vm.moreFloatStack()
 				}
-				if vm.fp[2]+Addr(fn.NumReg[2]) > vm.st[2] {
+				if vm.fp[2]+Addr(fn.NumReg[2]) >= vm.st[2] {
 					vm.moreStringStack()
 				}
-				if vm.fp[3]+Addr(fn.NumReg[3]) > vm.st[3] {
+				if vm.fp[3]+Addr(fn.NumReg[3]) >= vm.st[3] {
 					vm.moreGeneralStack()
 				}
 				vm.fn = fn
